@@ -1547,8 +1547,7 @@ class Data(BaseCartesianData):
             comp._data = np.asarray(data)
 
         # listeners may evaluate masks as soon as they hear of the change
-        for subset in self.subsets:
-            _clear_mask_cache(subset.subset_state)
+        _clear_mask_caches()
 
         # alert hub of the change
         if self.hub is not None:
@@ -1620,8 +1619,7 @@ class Data(BaseCartesianData):
         self.coords = data.coords
 
         # listeners may evaluate masks as soon as they hear of the change
-        for subset in self.subsets:
-            _clear_mask_cache(subset.subset_state)
+        _clear_mask_caches()
 
         # alert hub of the change
         if self.hub is not None:
@@ -2094,14 +2092,15 @@ class Data(BaseCartesianData):
                 if not isinstance(comp, CoordinateComponent) and cid.parent is self]
 
 
-def _clear_mask_cache(subset_state):
-    # Clear the memoized masks of a subset state and of the states nested in it
-    clear_cache(subset_state.to_mask)
-    children = [getattr(subset_state, 'state1', None), getattr(subset_state, 'state2', None)]
-    children.extend(getattr(subset_state, 'states', ()))
-    for child in children:
-        if child is not None:
-            _clear_mask_cache(child)
+def _clear_mask_caches():
+    # Masks are memoized per subset state class for the lifetime of the process,
+    # also for states that are nested in another one or that are not (or no
+    # longer) attached to a subset of the dataset, so clear them for all classes
+    classes = [SubsetState]
+    while classes:
+        cls = classes.pop()
+        clear_cache(cls.to_mask)
+        classes.extend(cls.__subclasses__())
 
 
 @contract(i=int, ndim=int)
